@@ -176,11 +176,16 @@ let () =
       (match s with Resp r when r.h_ical = LPanic -> bump "ical_decoder_panics_on_body" | _ -> ());
       (* outside the theorems' hypothesis (an HTTPClient that leaves Response.Request nil)
          only model agreement is required *)
-      let spec = spec_ok meth path s o || not wf in
+      (* a property reported twice for one resource, with a success and with a non-success status:
+         the statement does not say which report counts; either outcome is accepted (extracted
+         spec_ok_relaxed), the model comparison stays exact *)
+      let amb = ambiguous s in
+      if amb then bump "ambiguous_double_report";
+      let spec = spec_ok_relaxed meth path s o || not wf in
       let agree, spec, mdetail =
         (match meta_verdict with
          | Some (ma, ms, om) when not (ma && ms) ->
-           (agree && ma, spec && ms,
+           (agree && ma, spec && (ms || amb),
             Printf.sprintf " METADATA model=[%s] spec=[%s] observed=[%s]"
               (show_meta (run_meta meth path s))
               (match s with Resp r -> show_meta (spec_meta meth path r) | Terr -> "") (show_meta om))
